@@ -1477,6 +1477,21 @@ def c_mutex_lock(m, st, f, a):
     return ok(Ref(r.cell, r.path + (0,), meta=('guard', r)))
 
 
+@contract(r'^(std::sync::)?Mutex::<.*>::try_lock$', 3)
+def c_mutex_try_lock(m, st, f, a):
+    """Ok(guard) when the mutex is free, Err(WouldBlock) when another thread holds it (never blocks)"""
+    r = a[0]
+    _sched(m, st, 'lock', r)
+    T = st.extra.get('thr')
+    if T is not None:
+        from .threads import lock_key
+        k = ('mutex',) + lock_key(r)
+        owner = T['locks'].get(k)
+        if owner is not None: return err(Opaque('TryLockError', 'WouldBlock'))
+        T['locks'][k] = T['cur']
+    return ok(Ref(r.cell, r.path + (0,), meta=('guard', r)))
+
+
 @contract(r'^(std::sync::)?Mutex::<.*>::(into_inner|get_mut)$', 3)
 def c_mutex_into_inner(m, st, f, a):
     if f.endswith('get_mut'): return ok(Ref(a[0].cell, a[0].path + (0,)))
